@@ -10,13 +10,13 @@ ID = "C12"
 LEVEL = "exploration"
 TECHNIQUE = "online-recorded callback trace checked by a step automaton; agent_statistics keys vs expected time list"
 RULE = ("lattice start<=stop in -2..6 (integers, incl. stop=0) x dt in {1,.5,.25,.2,.1} (plus dt=1/n for n in 3,7,49,93,105,186,... on short ranges) x populations of 0-6 agents of 1-2 types "
-        "x collect on/off x scripted creation/deletion in begin_round/end_round and from inside act() (an agent deletes itself, an earlier or a later agent, or creates one: only agents alive throughout the step are judged there); three drivers: Model.run, bptk.run_scenarios on "
+        "x collect on/off x scripted creation/deletion in begin_round/end_round and from inside act() (an agent deletes itself, an earlier or a later agent, or creates one: only agents alive throughout the step are judged there); three drivers: Model.run (half of the unscripted ones run a second time with data collection switched the other way), bptk.run_scenarios on "
         "1-3 scenarios of one manager (threads), externally driven Model.run_step, and a bptk session (begin_session / run_step) over two abm managers that own a scenario of the same name (one complete step per call and model, none for scenarios outside the session). distinct_nontrivial = distinct "
         "(driver, start, stop, dt, collect, has-population-change) combinations with at least 2 steps and 1 agent.")
 ASSUMPTIONS = ["run specs are integers set through run_specs/configure as the scenario loader does (Model(starttime=..) stores floats, which range() rejects: API precondition, not judged)",
                "for a population change made inside act() the statement is read as: every agent alive before and after the step acts exactly once, in creation order; agents deleted or created inside the step may act at most once",
                "time is compared with round+step*dt up to 1e-9"]
-REQUIRED = {"session_calls": 20, "steps_observed": 2000, "acts_observed": 2000, "collects_observed": 1000, "steps_with_population_change_inside_act": 50}
+REQUIRED = {"second_runs": 20, "session_calls": 20, "steps_observed": 2000, "acts_observed": 2000, "collects_observed": 1000, "steps_with_population_change_inside_act": 50}
 BUDGET_S = {"quick": 100, "thorough": 900}
 DTS = ["1", "0.5", "0.25", "0.2", "0.1"]
 RECIP = [3, 7, 93, 105, 49, 186, 99, 117, 123, 198, 210, 211, 6, 9, 12, 100, 1000]
@@ -187,7 +187,14 @@ def run_case(case):
         if case["driver"] == "run":
             m = abm.new_model(case["start"], case["stop"], dt, script=case["script"], agents=agents)
             m.run(collect_data=case["collect"])
-            logs.append((m.log, m.data_collector.agent_statistics, case["collect"]))
+            logs.append((list(m.log), dict(m.data_collector.agent_statistics), case["collect"]))
+            if not case["changes"] and (case["start"] + case["stop"] + case["n_agents"]) % 2 == 0:
+                # the same model run a second time with data collection switched the other way: the second run's records only
+                del m.log[:]
+                m.step_counter = -1
+                m.run(collect_data=not case["collect"])
+                logs.append((list(m.log), dict(m.data_collector.agent_statistics), not case["collect"]))
+                counters["second_runs"] = 1
         elif case["driver"] == "steps":
             # externally driven: one scheduler step per call, round by round
             m = abm.new_model(case["start"], case["stop"], dt, script=case["script"], agents=agents)
